@@ -363,7 +363,7 @@ Definition spec_ok (k : case_t) : bool :=
   config_safeb t req &&
   match after with Some a => survivesb (table t) before a | None => false end.
 """
-WORDS = ["hi", "a b", "x", "it's", "w"]
+WORDS = ["hi", "a b", "x", "w_1", "w"]     # (no quote characters: `it's` makes ShellTask.cmdline raise — F23, C23's business)
 
 
 def gen_config(rng, i, worker=None):
@@ -427,44 +427,43 @@ def has_live(v):
 
 
 def run_batches(configs, timeout):
+    """every batch of configurations goes through three fresh interpreters (send, recv, read), one after the
+    other; up to five batches are in flight at a time"""
+    import concurrent.futures as cfut
     repo = os.environ.get("VERIF_REPO", "/repo")
     env = dict(os.environ, PYTHONPATH="/verif:" + repo, PYTHONHASHSEED="0", NO_ET="1", PYTHONDONTWRITEBYTECODE="1")
     tmp = tempfile.mkdtemp(prefix="c29-", dir="/tmp")
     recs = {}
+
+    def chain(d, b):
+        rc = {}
+        for mode in ("send", "recv", "read"):
+            p = subprocess.run(["timeout", "-k", "5", str(timeout), "/venv/bin/python", "-m", "harness.c29", mode, d],
+                               cwd="/verif", env=env, stdout=subprocess.DEVNULL, stderr=subprocess.PIPE, text=True)
+            rc[mode] = (p.returncode, (p.stderr or "")[-600:])
+        out = {}
+        for c in b:
+            r = {"stage_rc": rc}
+            for m in ("send", "recv", "read"):
+                fp = os.path.join(d, "case%d" % c["id"], m + ".json")
+                if os.path.exists(fp):
+                    with open(fp) as f:
+                        r[m] = json.load(f)
+            out[c["id"]] = r
+        return out
+
     try:
-        batches = [configs[i:i + 6] for i in range(0, len(configs), 6)]
-        dirs = []
-        for bi, b in enumerate(batches):
-            d = os.path.join(tmp, "b%d" % bi)
+        jobs = []
+        for bi in range(0, len(configs), 6):
+            b = configs[bi:bi + 6]
+            d = os.path.join(tmp, "b%d" % (bi // 6))
             os.makedirs(d)
             with open(os.path.join(d, "configs.json"), "w") as f:
                 json.dump(b, f)
-            dirs.append((d, b))
-
-        def stage(mode, group):
-            procs = [(subprocess.Popen(["timeout", "-k", "5", str(timeout), "/venv/bin/python", "-m", "harness.c29", mode, d],
-                                       cwd="/verif", env=env, stdout=subprocess.DEVNULL, stderr=subprocess.PIPE, text=True), d)
-                     for d, _ in group]
-            errs = {}
-            for pr, d in procs:
-                _, err = pr.communicate()
-                errs[d] = (pr.returncode, (err or "")[-600:])
-            return errs
-
-        for g in range(0, len(dirs), 3):
-            group = dirs[g:g + 3]
-            stage_err = {}
-            for mode in ("send", "recv", "read"):      # three fresh interpreters, one after the other
-                stage_err[mode] = stage(mode, group)
-            for d, b in group:
-                for c in b:
-                    r = {"stage_rc": {m: stage_err[m][d] for m in stage_err}}
-                    for m in ("send", "recv", "read"):
-                        p = os.path.join(d, "case%d" % c["id"], m + ".json")
-                        if os.path.exists(p):
-                            with open(p) as f:
-                                r[m] = json.load(f)
-                    recs[c["id"]] = r
+            jobs.append((d, b))
+        with cfut.ThreadPoolExecutor(max_workers=5) as ex:
+            for res in ex.map(lambda db: chain(*db), jobs):
+                recs.update(res)
     finally:
         shutil.rmtree(tmp, ignore_errors=True)
     return recs
@@ -505,7 +504,7 @@ def run(ctx):
     from .lib import coqio
     from .lib.runner import Outcome, Failure
     rng = ctx.rng
-    n = ctx.budget(18, 120)
+    n = ctx.budget(18, 78)
     configs = [dict(c) for c in ctx.corpus()]
     for w in ("debug", "cf", "slurm", "sge"):
         configs.append(gen_config(rng, 0, w))
@@ -513,7 +512,7 @@ def run(ctx):
         configs.append(gen_config(rng, 0))
     for i, c in enumerate(configs):
         c["id"] = i
-    recs = run_batches(configs, timeout=ctx.budget(300, 600) if ctx.widen == 1 else 1500)
+    recs = run_batches(configs, timeout=ctx.budget(400, 1200) if ctx.widen == 1 else 2400)
     out = Outcome(rule=RULE)
     dist = {"worker_debug": 0, "worker_cf": 0, "worker_slurm": 0, "worker_sge": 0, "audit_prov": 0, "cf_worker_runs": 0,
             "jobs_run_in_other_process": 0, "classes_in_tables": {}, "attributes_compared": 0}
